@@ -371,17 +371,24 @@ Returns:
         print('%s: %s' % (key, getattr(f, key, '')), file=outfile)
 
     vals = [filled(f.variables[f.INDEPENDENT_VARIABLE][:]).ravel()]
+    masks = [np.zeros(vals[0].shape, dtype='bool')]
+    misstxts = ['']
     keys = [f.INDEPENDENT_VARIABLE]
     for key, var in f.variables.items():
         if key == f.INDEPENDENT_VARIABLE:
             continue
         keys.append(key)
         vals.append(filled(var[:]).ravel())
+        masks.append(np.ma.getmaskarray(var[:]).ravel())
+        # masked cells are written with the text of the declared code, so
+        # that codes with more than 7 digits still compare equal on read
+        misstxts.append(str(getattr(var, 'missing_value', -999)))
 
     print(delim.join(keys), file=outfile)
-    for row in array(vals).T:
-        row.tofile(outfile, format='%.6e', sep=delim)
-        print('', file=outfile)
+    for row, mrow in zip(array(vals).T, array(masks).T):
+        print(delim.join([misstxt if m else '%.6e' % v
+                          for v, m, misstxt in zip(row, mrow, misstxts)]),
+              file=outfile)
 
     return outfile
 
